@@ -231,6 +231,8 @@ def run(tier, seed=0, shard=(0, 1)):
                   'classical': '3 measured qubits (6 ways of measuring, incl. Measure(3)) then <= 2 classical steps among bit '
                                'swaps, NOT on one bit, Bits(0) at every offset (quick: a third of the 2-step sequences); '
                                'mixed and pure scalars at both ends',
+                  'angles': 'Rx / Rz / CRz with 9 tket angles in [-3.3, 4.25] half-turns imported, 5 discopy phases in [-1.65, 1.85] '
+                            'exported and re-imported, the control in superposition before and after',
                   'simulator': 'rtc/tksim.py exact branching state-vector simulation'})
     idx = 0
     for dom in (qubit, qubit @ qubit, circuit.Ty(), bit):
@@ -337,6 +339,33 @@ def run(tier, seed=0, shard=(0, 1)):
         if idx % shard[1] != shard[0] or (tier == 'quick' and (idx // shard[1]) % 5):
             continue
         check_import(rep, combo, tkc)
+    # rotation angles over tket's whole range (half-turns modulo 4, negative, > 2): interference makes the controlled
+    # phase observable (the control is put in superposition before and after)
+    for angle in (-3.3, -1.5, -0.5, 0.5, 1.5, 2.0, 2.5, 3.7, 4.25):
+        for gate in ('CRz', 'Rz', 'Rx'):
+            idx += 1
+            if idx % shard[1] != shard[0]:
+                continue
+            c = pytket.Circuit(2, 2)
+            c.H(0)
+            c.Rx(0.7, 1)
+            if gate == 'CRz':
+                c.CRz(angle, 0, 1)
+            else:
+                getattr(c, gate)(angle, 0)
+                c.CX(0, 1)
+            c.H(0)
+            c.Rx(0.5, 1)
+            c.Measure(0, 0)
+            c.Measure(1, 1)
+            check_import(rep, ('angles', gate, angle), c)
+    # the same range from the discopy side: negative phases and phases >= 1 exported, then imported back
+    for phase in (-1.65, -0.25, 0.75, 1.25, 1.85):
+        for mk in (lambda p: CRz(p), lambda p: Rz(p) @ Id(1) >> gates.CX, lambda p: Rx(p) @ Id(1) >> gates.CX):
+            idx += 1
+            if idx % shard[1] != shard[0]:
+                continue
+            check(rep, Ket(0, 0) >> gates.H @ Rx(0.35) >> mk(phase) >> gates.H @ Rx(0.25) >> Measure(2))
     # two-qubit gates between every ordered pair of 4 and 5 qubits (units far apart, both orders): measurement-free,
     # so the pure part of the imported circuit (everything before the final discards) is compared as a state vector
     for n in (4, 5):
